@@ -391,7 +391,7 @@ func init() {
 			"epsilon for 'never early' = 50 us + 0.1 % of the delay (timerfd is on CLOCK_REALTIME, the monitor reads the monotonic clock)",
 			"a repeating timer's interval is measured between consecutive callback entries",
 		},
-		NumCases: func(tier, build string) int { return vf.Tiered(tier, 240, 40000) },
+		NumCases: func(tier, build string) int { return vf.Tiered(tier, 720, 40000) },
 		Shards:   func(tier, build string) int { return 16 },
 		Floor:    func(tier string) int { return vf.Tiered(tier, 40, 500) },
 		Run:      runC04,
